@@ -4,5 +4,6 @@ CONSTANTS MaxPages = 2
           MaxCalls = 5
           ShapeStops = FALSE
           Stream = FALSE
+          HaltInFetch = TRUE
 INVARIANTS Emit
 CHECK_DEADLOCK FALSE
